@@ -872,7 +872,7 @@ def check_C14(ctx):
     except Broken as b:
         broken.append(b)
     ctx.coverage["rule"] = ("1..6 target nodes; per node a node-level lexical entry, a property-level entry only, both, or none; ranges with magnitudes 0, <10, <1e5, ~2^53 and up to 30 digits; 0..3 additional "
-                            "source files listing random subsets of the nodes (a node may be listed by several); data without any source maps; one case in three uses a failure branch of two constraints (or / if-then, both operand orders) one of which is embedded Rego that designates ANOTHER node ($traceNode) with its own entry and file; also checked: the same graph without source maps gives identical results minus locations")
+                            "source files listing random subsets of the nodes (a node may be listed by several); source information with a root location, without one, or absent altogether; data without any source maps; one case in three uses a failure branch of two constraints (or / if-then, both operand orders) one of which is embedded Rego that designates ANOTHER node ($traceNode) with its own entry and file; also checked: the same graph without source maps gives identical results minus locations")
     ctx.assumptions += ["regex.find_n and to_number of the engine are modelled by digitRuns/readNat (tied by this correspondence, including 30-digit numbers)"]
     return conclude(ctx, broken, trusted=TRUST_COMMON)
 
@@ -1140,7 +1140,7 @@ def check_C07(ctx):
         ctx.oblige("search:scaling matrix (constraint kinds x path shapes, width, depth, number of validations, random formulas, profile names) compiles", bad == 0)
     except Broken as b:
         broken.append(b)
-    ctx.coverage["rule"] = ("every constraint kind (22) x 8 path shapes, plain/negated/nested; 1..40 (thorough 1..60) quantified constraints in one validation; nesting depth 1..8 (thorough ..10; the engine's compile time grows about 3.7x per level: 4 s at depth 8, 58 s at depth 10, so deeper profiles are not explored); 1..30 (..100) validations; "
+    ctx.coverage["rule"] = ("every constraint kind (22) x 17 path shapes (incl. custom annotation steps, direct and inverse, in every position), plain/negated/nested; 1..40 (thorough 1..60) quantified constraints in one validation; nesting depth 1..8 (thorough ..10; the engine's compile time grows about 3.7x per level: 4 s at depth 8, 58 s at depth 10, so deeper profiles are not explored); 1..30 (..100) validations; "
                             "random formulas of the full language; profile names that must sanitise into a package name; pkg.CompileProfile must succeed")
     ctx.assumptions += ["that the engine accepts the REST of the emitted code (safety, types) is not modelled: only the names the translator invents are covered by theorems; the matrix is the search for a failing profile"]
     return conclude(ctx, broken, trusted=TRUST_COMMON + ["extractors of the letter list, the plural format and the linked engine's keyword table"])
